@@ -1,14 +1,20 @@
 #!/bin/bash
 # Build the framework from files on disk only: translators -> coq/Gen, full .vo build, extraction, OCaml driver.
+# Fails if anything a claimed check needs (its Props file, the extraction) does not build.
 cd "$(dirname "$0")"
 export PYTHONPATH=/repo:/verif/tools PYTHONHASHSEED=0 PYTHONDONTWRITEBYTECODE=1
 /venv/bin/python -W ignore - <<'PY'
-import sys, vlib
+import json, os, sys, vlib
 log = []
 r = vlib.build_all(log)
 print('\n'.join(log))
-if r['make_rc'] != 0 or r['missing_vo'] or not r['extract_ok'] or r['translators']:
-    print(r['make_log'][-3000:]); print('missing:', r['missing_vo'], 'translators:', r['translators'])
+claimed = [c['property_id'] for c in json.load(open(os.path.join(vlib.VERIF, 'MANIFEST.json')))['checks']]
+bad = [s for s in r['missing_vo'] if s.startswith('Props/') and s[6:-2] in claimed]
+bad += [s for s in r['missing_vo'] if s.startswith('Extract/')]
+if r['missing_vo']:
+    print('not built:', r['missing_vo'])
+if bad or not r['extract_ok'] or r['translators']:
+    print(r['make_log'][-3000:]); print('FAILED:', bad, 'extract_ok:', r['extract_ok'], 'translators:', r['translators'])
     sys.exit(1)
-print('setup ok')
+print('setup ok (claimed: %s)' % ' '.join(claimed))
 PY
